@@ -6,12 +6,14 @@ import random
 import sys
 
 sys.path.insert(0, '/verif/lib')
+sys.path.insert(0, '/verif/checks')
 import vlib
+import execx
 import progs
 from vlib import Inconclusive
 
 META = {
-    'technique': 'TLA+ session monitor (ProgMon.tla over Dataflow.tla, loss clauses NeverBlocksUnderMachineLoss / CompletesWhenLossesStop / ScanCompletesWhenLossesStop / ScanRowsAsFailureFreeRun) judges histories recorded from real Bigmachine(testsystem) sessions in which an RPC interposer on the test system\'s shared HTTP client kills the machine serving a chosen call (Worker.Compile/Run/Stat/Read, FuncLocations, Supervisor boot calls, keepalives) before it, after it, after it with the reply dropped, or in the middle of a streamed reply; design models ScanResume.tla (resume of a scan in a recomputed output) and Combine.tla (attempts of a combining task) checked exhaustively',
+    'technique': 'TLA+ session monitor (ProgMon.tla over Dataflow.tla, loss clauses NeverBlocksUnderMachineLoss / CompletesWhenLossesStop / ScanCompletesWhenLossesStop / ScanRowsAsFailureFreeRun) judges histories recorded from real Bigmachine(testsystem) sessions in which an RPC interposer on the test system\'s shared HTTP client kills the machine serving a chosen call (Worker.Compile/Run/Stat/Read, FuncLocations, Supervisor boot calls, keepalives) before it, after it, after it with the reply dropped, or in the middle of a streamed reply; design models ScanResume.tla (resume of a scan in a recomputed output) and Combine.tla (attempts of a combining task) checked exhaustively; executor level: design model Exec.tla (task lifecycle of the bigmachine executor under machine loss: grant, call with captured dependency locations, worker run, lost reply, location, OK+assignment, machine monitor in two steps, Discard) checked exhaustively with liveness, and real sessions with a machine killed at the n-th executor event judged by ExecMon.tla and validated against Exec.tla by ExecTrace.tla',
     'level_text': 'recorded behaviour judged by a TLA+ specification: programs of the fault suite (map-only, reduce, cogroup, fold, multi-stage shuffles, reused results) are first run failure-free under a counting RPC interposer, which yields the RPC boundaries of every step (run, scan, run-with-result, rescan); kill histories then kill the serving machine at sampled (quick) or all (thorough, small programs) boundaries x phases {before, after, reply dropped, mid-stream}, singly and in pairs, including during the final scan; torn-stream families (small batches, the reply cut after a swept number of bytes) for scans and for the shuffle reads of running aggregation tasks, and repeated-loss histories (six rounds of losing an output and one recomputation attempt); every run and scan must finish before its deadline, succeed (kills are finite and replacement machines start), and deliver rows the Dataflow semantics allows for a failure-free run',
     'level_note': 'machines are in-process testsystem machines killed by closing their servers; the killed machine is the one serving the chosen call (the caller of a worker-to-worker read cannot be singled out); machine-combiner sessions are excluded as the property states; ordinals are counted per method from the start of a step, so timing-dependent calls (keepalive, Stat polling) hit approximately the chosen point',
 }
@@ -134,7 +136,12 @@ def run(tier, replay=None):
     chk = vlib.Check('C02', tier)
     chk.assumptions = vlib.TRUSTED
     rng = random.Random(vlib.seed() * 2011 + 2)
-    with vlib.WorkCopy('c02', harness=['prog']) as w:
+    with vlib.WorkCopy('c02', harness=['prog', 'c12x']) as w:
+        if replay:
+            payload0 = json.load(open(os.path.join(replay, 'replay.json')))['payload']
+            if 'xcase' in payload0:
+                execx.run(chk, w, tier, replay_case=payload0['xcase'])
+                return chk.finish()
         # design level (ScanResume.tla): resuming a scan in a recomputed output is exact and live when the output is
         # reproducible; the other configuration documents known finding KF-C02-scan-resume-recomputed (TLC is
         # expected to find the duplicated-and-missing-rows history there). Neither decides a verdict.
@@ -330,4 +337,9 @@ def run(tier, replay=None):
                            'output_order': output_order(sc, ev.get('res', '')) if b['do'] == 'scan' else ''},
                           '%s (scenario %s, seq %s, %s; machines killed at %s): %s' % (b['what'], b['id'], b['seq'], b['do'], kl, str(b['detail'])[:300]),
                           {'scenario': sc, 'record': rec})
+        if not replay:
+            # executor level (Exec.tla): the design model of the executor's task lifecycle under machine loss, checked
+            # exhaustively; real sessions with a machine killed at the n-th grant / call / reply / location / ok event of
+            # the executor, the result then consumed by a second invocation: ExecMon judges, ExecTrace validates
+            execx.run(chk, w, tier, kinds=('kill',), nkill=8, mc_only=('ExecMC_fixed.cfg', 'ExecMC_live.cfg', 'ExecMC_assignfirst.cfg'))
         return chk.finish()
